@@ -267,5 +267,82 @@ def r101(facts, res):
                     {'function': b.path, 'leader_push_regions': sorted(lpush), 'member_push_regions': sorted(vpush)})
 
 
+def r102(facts, res):
+    """the unnamed end-of-input token: eof_token_idx is the index at which the `None` name is pushed"""
+    R = 'R10.2'
+    b = facts.one(R, 'YaccGrammar::new_from_ast_with_validity_info', crate='cfgrammar', name='new_from_ast_with_validity_info')
+    lit = None
+    for bb, i, st in b.stmts():
+        if st['k'] == 'assign' and 'agg' in st['rv'] and isinstance(st['rv']['agg'], dict) and st['rv']['agg'].get('adt') == G:
+            lit = (bb, st)
+    adt = facts.adt(G)
+    fields = [f['name'] for f in adt['variants'][0]['fields']]
+    if lit is None or 'eof_token_idx' not in fields:
+        res.lost(R, 'YaccGrammar literal / eof_token_idx field not found')
+        return
+    op = lit[1]['rv']['ops'][fields.index('eof_token_idx')]
+    r, projs, via = b.op_root(op, through=('as_',), stop_named=False)
+    lens = [d for d in b.defs().get(r, []) if d[1] == 'call' and cname(d[2]) == 'len']
+    if not lens:
+        res.bad(R, 'eof-index', loc_of(b, lit[0]), 'eof_token_idx is not computed from the length of the token-name vector')
+        return
+    lb = lens[0][0]
+    tn = b.op_root(lens[0][2]['args'][0])[0]
+    # next push onto the same vector after the len(): must push None, with no other push in between
+    rid = chains(b)
+    pushes = [(bb, t) for bb, t in b.calls_named('push') if b.op_root(t['args'][0])[0] == tn]
+    after = [(bb, t) for bb, t in pushes if bb in b.reachable([lb]) and bb != lb]
+    same_region = [(bb, t) for bb, t in after if rid[bb] == rid[lb]]
+    ok = False
+    if same_region:
+        bb, t = same_region[0]
+        l = op_local(t['args'][1])
+        for d in b.defs().get(l, []):
+            if d[1] == 'stmt' and 'agg' in d[2] and isinstance(d[2]['agg'], dict) and d[2]['agg'].get('vname') == 'None':
+                ok = True
+    later = [bb for bb, t in after if rid[bb] != rid[lb]]
+    if ok and len(same_region) == 1 and not later:
+        res.ok(R, 'eof-index', loc_of(b, lb), 'eof_token_idx = token_names.len() taken immediately before the single push of the unnamed (None) token, which is the last token')
+    else:
+        res.bad(R, 'eof-index', loc_of(b, lb), 'eof_token_idx is not the index of the unnamed token: after it is computed the token vector gets %d push(es) in the same region (first is None: %s) and %d later' % (len(same_region), ok, len(later)))
+    # the start production field is production 0 of the start rule
+    R3 = 'R10.3'
+    op = lit[1]['rv']['ops'][fields.index('start_prod')]
+    w = None
+    r, projs, via = b.op_root(op, through=Body.THROUGH + ('index',), stop_named=False)
+    # chase: index(index(rules_prods, usize::from(rule_map[&start_rule])), 0)
+    l = op_local(op)
+    zero = None
+    seen = set()
+    inner_idx_src = None
+    while l is not None and l not in seen:
+        seen.add(l)
+        ds = b.defs().get(l, [])
+        if len(ds) != 1:
+            break
+        if ds[0][1] == 'call' and cname(ds[0][2]) == 'index':
+            ia = ds[0][2]['args'][1]
+            c = ia.get('const')
+            if zero is None:
+                zero = bool(c and c.get('int') == 0)
+                l = op_local(ds[0][2]['args'][0])
+                continue
+            inner_idx_src = ia
+            break
+        x = ds[0][2]
+        if ds[0][1] == 'stmt':
+            pl = op_place(x['use']) if 'use' in x else x.get('ref')
+            l = pl['l'] if pl else None
+        elif cname(x) in Body.THROUGH and x['args']:
+            l = op_local(x['args'][0])
+        else:
+            break
+    if zero:
+        res.ok(R3, 'start-prod', loc_of(b, lit[0]), 'start_prod is production 0 of a rule looked up by name')
+    else:
+        res.bad(R3, 'start-prod', loc_of(b, lit[0]), 'start_prod is not the first production of the added start rule')
+
+
 def run(facts, res):
     r101(facts, res)
+    r102(facts, res)
